@@ -225,8 +225,10 @@ def write_evidence(pid, tier, seed, cov, wall, violations, assumptions):
         "wall_s": round(wall, 2),
         "violations": int(violations),
     }
-    with open(os.path.join(VERIF, "evidence", f"{pid}.json"), "w") as f:
+    path = os.path.join(VERIF, "evidence", f"{pid}.json")
+    with open(path + ".tmp", "w") as f:
         json.dump(ev, f, indent=1, default=str)
+    os.replace(path + ".tmp", path)
 
 
 def write_replay(pid, seed, payload):
